@@ -485,6 +485,8 @@ def ref_shape(ctx: Ctx) -> RuleResult:
                 seen_shapes[shape] = seen_shapes.get(shape, 0) + 1
                 ks = {k for k in kinds if k not in ("none",)}
                 ok = ks == {expected[shape]}
+                if not ok and not ks <= {"tuple", "list", "dict"}:
+                    raise Undecided(f"{f.short}: container rebuilt for a {shape} return not recognised: {sorted(ks)}")
                 r.ob(ok, {"site": f.short, "shape": shape, "rebuilds": sorted(kinds)})
                 if not ok:
                     r.violate(f"{f.short}: a {shape} return is rebuilt as {sorted(ks)}", f.loc(),
